@@ -34,6 +34,8 @@ def plan(tier, seed):
     specs.append(("deep-nesting",))
     for name in fam.SCALING:
         specs.append(("scaling", name))
+    for i in range(4):
+        specs.append(("doc-product", i, 4))
     specs.append(("doc-indentation", 0, 2))
     specs.append(("doc-indentation", 1, 2))
     specs.append(("variants", 0))
@@ -220,8 +222,13 @@ def run_shard(ctx, spec):
             res = scr.binary_case_with_curve(c, curve, n)
             if res.cpu_s > core.CPU_BOUND_S or res.timed_out:
                 break  # one witness per family is enough; larger instances would only burn time
-            n += 4 if n < 40 else 16
+            n += (2 if name.startswith("doubling") else 4) if n < 40 else 16
         ctx.extra.setdefault("scaling_curves", {})[name] = curve
+    elif kind == "doc-product":
+        _, idx, n = spec
+        batch = [{"files": [t], "key": k} for i, (k, t) in enumerate(fam.doc_product_programs()) if i % n == idx]
+        scr.run(batch, sample_rate=0.02)
+        ctx.stats["doc_product_cases"] += len(batch)
     elif kind == "doc-indentation":
         _, idx, n = spec
         batch = [{"files": [t], "key": k} for i, (k, t) in enumerate(fam.doc_indentation_programs()) if i % n == idx]
@@ -372,7 +379,7 @@ def main(tier, seed):
               "line value combinations incl. empty strings, multi-file sets. distinct_nontrivial = distinct non-empty inputs"
               % (len(fam.TOKENS), 2 if tier == "quick" else 3)),
         required={"inproc_cases": 5000, "binary_runs": 500, "inproc_error_free": 50, "typeform_position_pairs": 300,
-                  "scaling_instances": 20, "cmdline_runs": 300, "doc_indentation_cases": 100},
+                  "scaling_instances": 20, "cmdline_runs": 300, "doc_indentation_cases": 100, "doc_product_cases": 1000},
         assumptions=["the time bound is decided on CPU time (rusage / thread clock), never on wall-clock; a watchdog firing below the "
                      "bound is inconclusive", "'grows gently' is only decided as the stated hard bound: 20 s CPU for <= 8 KiB"],
         exhaustive=True,
